@@ -316,7 +316,9 @@ class Oracle:
     def copied_frame(self, sf, sdb, tf, tdb, trimmed):
         """tf (in the target) is the copy of sf.  trimmed: direct_ecu_only may have removed ECU names from tx/receivers."""
         sub = ("transmitters",) if trimmed else ()
-        skip = {"attributes", "signals"} | ({"receivers"} if trimmed is not None else set())
+        # Frame.receivers (the list update_receiver derives from the signals) is not among the fields the statement names
+        # ("identifier, name, length, senders, comment and signals (layout, type, scaling, receivers, value tables)")
+        skip = {"attributes", "signals", "receivers"}
         diffs = self.fields_equal(sf, tf, skip, sub)
         if len(sf.signals) != len(tf.signals):
             diffs.append(("signals", len(sf.signals), len(tf.signals)))
@@ -428,13 +430,13 @@ def new_objects(now, before):
     return [x for x in now if not any(x is y for y in before)]
 
 
-def canon(groups):
+def canon(groups, no_ecu_refs=False):
     if os.environ.get("VERIF_C12_EXACT_ORDER"):
         return groups          # diagnostic switch: tie with every list and dict order as the model produces it
-    return _canon(groups)
+    return _canon(groups, no_ecu_refs)
 
 
-def _canon(groups):
+def _canon(groups, no_ecu_refs=False):
     """Normal form modulo what the property does not fix.  Orders: ECU list, frame list, free-signal list, the define dicts, the
     attribute dicts of every object, global attributes, environment variables.  Content: the value LIST of an ENUM definition
     (the property speaks of effective values and of the definitions the copied objects use, not of which further values a list
@@ -463,6 +465,15 @@ def _canon(groups):
             defs.append(g[:6])         # [5, cat, name, definition (0 for a consistent ENUM string), type, default]: no value list
         else:
             rest.append(g)
+    # bare ECU entries (no comment, no attribute): placeholders for names frames refer to (update_ecu_list makes them); which of
+    # them a target lists is not fixed by the statement ("every ECU the frame references that the source defines" is a lower bound)
+    ecus = [g for g in ecus if not (g[2] == -1 and len(g) == 3)]
+    if no_ecu_refs:
+        # after a direct_ecu_only=True request: which OTHER ECU entries are pruned, and hence which names are struck from
+        # transmitter / receiver lists, is open - only frames, signals, attributes and definitions are tied
+        ecus = []
+        blocks = [[b[0][:7] + [0] + b[0][8 + b[0][7]:]] + [h[:4] + [0] + h[5 + h[4]:] for h in b[1:]] for b in blocks]
+        free = [h[:4] + [0] + h[5 + h[4]:] for h in free]
     ecus.sort(key=lambda g: g[1])
     blocks.sort(key=lambda b: (b[0][1], b[0][2]))
     free.sort()
@@ -727,14 +738,16 @@ def gen_matrix(rng, shared=False, malformed=False, ecu_pool=("E0", "E1", "E2", "
     rng.shuffle(d["ecus"])
     ids = [(0x10, False), (0x11, False), (0x12, False), (0x10, True), (0x18FEF100, True)]
     rng.shuffle(ids)
-    allecus = list(ecu_pool) + ["E9"]
+    # a frame refers to ECUs its own matrix lists, or to "E9" which no matrix ever lists (whether a name that neither source nor
+    # target defines becomes a bare ECU entry of the target is open; such entries are dropped from the tie, see _canon)
+    allecus = [e[0] for e in d["ecus"]] + ["E9"]
     for i in range(rng.choice([0, 1, 1, 2, 2, 3])):
         fid, ext = ids[i]
         sigs = []
         snames = ["s0", "s1", "s2", "s3"]
         rng.shuffle(snames)
         for j in range(rng.choice([0, 1, 1, 2, 3])):
-            sigs.append(sig_desc(snames[j], recv=rng.sample(allecus, rng.choice([0, 1, 1, 2])), attrs=attrs_for("sig"),
+            sigs.append(sig_desc(snames[j], recv=rng.sample(allecus, min(len(allecus), rng.choice([0, 1, 1, 2]))), attrs=attrs_for("sig"),
                                  start=8 * j, size=rng.choice([1, 8]), le=rng.random() < 0.7, signed=rng.random() < 0.3,
                                  factor=rng.choice(["1", "0.5"]), offset=rng.choice(["0", "-40"]), unit=rng.choice(["", "V"]),
                                  values=rng.choice([[], [[0, "off"], [1, "on"]]])))
@@ -742,7 +755,7 @@ def gen_matrix(rng, shared=False, malformed=False, ecu_pool=("E0", "E1", "E2", "
             sigs.append(pycopy.deepcopy(sigs[0]))           # duplicate signal name (signal_by_name finds the first)
         # names from a small pool shared by all matrices, independent of the identifier (same name / other id, same id / other name)
         d["frames"].append(frame_desc(rng.choice(["FA", "FB", "FC"]), fid, ext, size=rng.choice([2, 8]),
-                                      tx=rng.sample(allecus, rng.choice([0, 1, 1, 2])), comment=rng.choice(["", "cmt"]),
+                                      tx=rng.sample(allecus, min(len(allecus), rng.choice([0, 1, 1, 2]))), comment=rng.choice(["", "cmt"]),
                                       attrs=attrs_for("frame"), sigs=sigs, fd=rng.random() < 0.2, cycle=rng.choice([0, 100])))
     if malformed and d["frames"] and rng.random() < 0.3:
         dup = pycopy.deepcopy(d["frames"][0])
@@ -905,7 +918,7 @@ def run(chk):
         r = rng.random()
         cases.append(random_case(rng, "random" if r < 0.8 else ("shared-names" if r < 0.9 else "malformed")))
 
-    lines, expect, info = [], [], []
+    lines, expect, info, projects = [], [], [], []
     eff_lines, eff_expect, eff_info = [], [], []
     for case in cases:
         I = Intern()
@@ -927,11 +940,20 @@ def run(chk):
         nf0 = list(groups)
         results = []
         raised = False
+        cut = None          # (results, normal form, no_ecu_refs) where the tie of this history ends
         for op, srcs in case["history"]:
             sdbs = [build(C, s) for s in srcs]
-            groups.append(op_header(I, op, srcs[0]))
-            for s in sdbs:
-                groups += nf_matrix(I, s) + [[0]]
+            if cut is None and not raised and op["op"] in ("ecu", "ecu_frames"):
+                listed = {e.name for e in tdb.ecus}
+                if any(own_glob(op["glob"], e.name) and e.name in listed for e in sdbs[0].ecus):
+                    # the request names an ECU the target already lists: the statement only says that ECU keeps every attribute the
+                    # target already defined - whether it learns attributes the target never defined is open.  Judged, not tied.
+                    cut = (list(results), nf_matrix(I, tdb), False)
+                    chk.count("tie-ends-before-request-for-listed-ecu")
+            if cut is None:
+                groups.append(op_header(I, op, srcs[0]))
+                for s in sdbs:
+                    groups += nf_matrix(I, s) + [[0]]
             if raised:
                 continue
             chk.count("op-" + op["op"])
@@ -942,14 +964,25 @@ def run(chk):
             if op["op"] == "frame" and not raised:
                 results.append(int(bool(res)))
                 chk.count("copy_frame-" + ("copied" if res else "refused"))
+            if cut is None and not raised and op["op"] == "ecu_frames" and op["direct"]:
+                # which other ECU entries direct_ecu_only prunes is open: tie this state without ECU entries / references, then stop
+                cut = (list(results), nf_matrix(I, tdb), True)
+                chk.count("tie-ends-after-direct_ecu_only")
         chk.count("stream-" + case["stream"])
         if case["cell"]:
             chk.count("cell-" + case["cell"].split("/")[2] + "/" + case["cell"].split("/")[3])
-        if raised:
+        project = False
+        if not raised:
+            nf1 = nf_matrix(I, tdb)
+        if cut is not None:
+            exp = [[8, 0] + cut[0]] + cut[1]
+            project = cut[2]
+            if raised:
+                chk.count("history-raised")
+        elif raised:
             chk.count("history-raised")
             exp = None
         else:
-            nf1 = nf_matrix(I, tdb)
             exp = [[8, 0] + results] + nf1
         changed = (not raised) and (nf1 + [[0]] != nf0) and len(nf0) > 1
         chk.case(json.dumps(inp, sort_keys=True), changed)
@@ -959,6 +992,7 @@ def run(chk):
                             copied_value_after=own_eff(next(f for f in tdb.frames if f.arbitration_id.id == 0x10).signals[0].attributes, "sS",
                                                        tdb.signal_defines)), limit=3)
         lines.append(core.fmt_case(1201, groups))
+        projects.append(project)
         expect.append(exp)
         info.append(inp)
         # effective values of the final target through the implementation's own .attribute()
@@ -987,7 +1021,7 @@ def run(chk):
     out = core.run_model(lines + eff_lines)
     bad = 0
     err_agree = 0
-    for inf, exp, o in zip(info, expect, out[:len(lines)]):
+    for inf, exp, o, prj in zip(info, expect, out[:len(lines)], projects):
         got = core.parse_out(o)
         if exp is None:
             # the implementation raised: the model must have its error flag set (states are not compared)
@@ -996,9 +1030,9 @@ def run(chk):
                 chk.tie_break("copy-history", inf, "model: no error", "impl: raised")
             else:
                 err_agree += 1
-        elif got[0] != exp[0] or canon(got[1:]) != canon(exp[1:]):
+        elif got[0] != exp[0] or canon(got[1:], prj) != canon(exp[1:], prj):
             bad += 1
-            cg, ce = canon(got[1:]), canon(exp[1:])
+            cg, ce = canon(got[1:], prj), canon(exp[1:], prj)
             chk.tie_break("copy-history", inf, [got[0]] + [g for g in cg if g not in ce][:6], [exp[0]] + [g for g in ce if g not in cg][:6])
     bad2 = 0
     for inf, exp, o in zip(eff_info, eff_expect, out[len(lines):]):
